@@ -225,8 +225,10 @@ class Report:
         ev = {"property_id": self.prop, "tier": tier(), "seed": seed(), "level": self.level,
               "coverage": cov, "assumptions": self.assumptions, "wall_s": round(wall, 2),
               "violations": len(self.violations)}
-        os.makedirs(os.path.join(VERIF, "evidence"), exist_ok=True)
-        with open(os.path.join(VERIF, "evidence", f"{self.prop}.json"), "w") as fh:
+        # VERIF_EVIDENCE_DIR: used by the mutant tools so that a run against a deliberately broken tree does not replace the evidence
+        evdir = os.environ.get("VERIF_EVIDENCE_DIR") or os.path.join(VERIF, "evidence")
+        os.makedirs(evdir, exist_ok=True)
+        with open(os.path.join(evdir, f"{self.prop}.json"), "w") as fh:
             json.dump(ev, fh, indent=1, sort_keys=True, default=str)
         for k, v in sorted(self.known_hits.items()):
             print(f"KNOWN-FINDING: property={self.prop} {k}: {v['finding']['title']} "
